@@ -79,6 +79,12 @@ CHECKS = {
             "Trusted: transfer.py; names without parentheses (output label format). Tables are compared at the transferred vector, "
             "so non-unique optima cannot raise an alarm.",
             "DESIGN.md 5 C09"),
+    "C11": ("property-based testing (Hypothesis): round trip to_json / load_from_json with differential set-up against a fresh original",
+            "Exploration: every asset class (incl. scaled, structured, linked, CHP variants, order book in both forms) with "
+            "every parameter form, naive and zone-aware stamps, stand-alone or in a portfolio with own grid, saved before or "
+            "after a set-up; loaded object must build the identical problem, reproduce the JSON and keep the grid (points, zone).",
+            "Trusted: build.py constructs the originals; problems compared exactly.",
+            "DESIGN.md 5 C11"),
     "C12": ("property-based testing (Hypothesis): metamorphic relation (re-express rates and durations in another main time unit) on the assembled arrays, no solver; reference step lengths on DST / month grids",
             "Exploration: every generated portfolio over all asset classes is built in two main time units with rates multiplied "
             "and durations divided by the unit ratio; c,l,u,A,b,cType must agree to 1e-9 (and the optimum on every 4th case); "
